@@ -87,6 +87,7 @@ impl Check for C19 {
         let mut cfg = GenCfg::swarm(rng, holes);
         cfg.size = 4 + rng.below(30);
         cfg.f_timeish = false;
+        cfg.hole_defer_reject = false;
         // the C-side order() is a native callback taking an object payload: wrapped holes only
         let variant = if holes == 0 { HoleVariant::Sync } else { HoleVariant::Order };
         let mut case = ProgCase::generate(rng, cfg, variant, "v");
